@@ -18,3 +18,9 @@ func (m *OAM) VerifIdleDma(afterTransfer bool) {
 }
 
 func (m *OAM) VerifSetPPULast(a uint16) { m.ppuLastAccess = a }
+
+// latched corruption flags exist only inside the window, and a double write presupposes a write (within a machine cycle
+// the CPU may already have latched one, e.g. PUSH decrements SP before it writes)
+func (m *OAM) VerifFlagInv() bool {
+	return (!m.doubleWrite || m.write) && (!(m.read || m.write || m.doubleWrite) || m.corrupt)
+}
